@@ -414,6 +414,32 @@ func (r *replayer) dispatch(line []byte) error {
 			return err
 		}
 		r.histCase(c)
+	case "C04P":
+		var c PipeCase
+		if err := json.Unmarshal(line, &c); err != nil {
+			return err
+		}
+		r.pipeCase(c)
+	case "C04T":
+		var c LexCase
+		if err := json.Unmarshal(line, &c); err != nil {
+			return err
+		}
+		r.textCase(c)
+	case "C04F":
+		return r.faultCase(line)
+	case "C04Q":
+		var c FrontCase
+		if err := json.Unmarshal(line, &c); err != nil {
+			return err
+		}
+		if len(c.Texts) > 0 {
+			r.containment(c.Texts[0], "token-sequence")
+		}
+		if c.N >= 3 {
+			r.sum.Nontrivial++
+		}
+		r.sample(c)
 	case "C03S":
 		var c Case
 		if err := json.Unmarshal(line, &c); err != nil {
